@@ -146,6 +146,30 @@ def skip_actions(facts, rule):
                     tvar, avar = path_str(path(c["args"][0])), path_str(path(c["args"][1]))
                     region = body[i + 1:]
     if region is None:
+        # the head taken apart in place (a result struct's members after the normalisation): locals initialised with
+        # `m_p[0] & 0xE0` (major type) and `m_p[0] & 0x1F` (additional information), then the cursor moves on
+        def head_part(init):
+            u_ = unwrap_all_casts(init) if init is not None else None
+            if isinstance(u_, dict) and u_.get("k") == "Bin" and u_.get("op") == "&" and decoder.is_mp_deref(unwrap_all_casts(u_["lhs"])) is not None:
+                return const_value(u_["rhs"])
+            return None
+        for lp in loops + [{"body": f["body"]}]:
+            body = ir.stmts(lp.get("body"))
+            tv = av = None
+            last = None
+            for i, s_ in enumerate(body):
+                if s_.get("k") == "Decl":
+                    for v_ in s_.get("vars", []):
+                        m_ = head_part(v_.get("init"))
+                        if m_ == 0xE0 and "n" in v_:
+                            tv, last = "l:%s#%s" % (v_["n"], v_["id"]), i
+                        elif m_ == 0x1F and "n" in v_:
+                            av, last = "l:%s#%s" % (v_["n"], v_["id"]), i
+                elif tv and av and any(decoder.is_mp_move(x) for x in ir.walk(s_)) and i == last + 1:
+                    last = i
+            if tv and av and region is None:
+                tvar, avar, region = tv, av, body[last + 1:]
+    if region is None:
         raise AnalysisBroken(rule, "skip_item: no read_cbor_type(type, ai) call found")
     cb = facts.enum("CDNS::CborType", rule=rule)
     majors = [(e["n"], e["v"]) for e in cb["enumerators"] if e["n"] != "BREAK"]
@@ -374,6 +398,18 @@ def check_read_int(run, rule):
                 return reach(s_.get("s", []), env_, lp_)
             if inside:
                 return "unknown"
+            if s_.get("k") == "If" and s_.get("else") is None and ir.always_leaves(s_.get("then")):
+                # an alternative that takes care of itself (`if (<all bytes buffered>) { ..; return v; }`): when its test cannot
+                # be evaluated because it looks at the window, going on means it was not taken
+                try:
+                    taken = minieval.ev(unwrap(s_["cond"]), env_, enums)
+                except minieval.Unknown:
+                    txt = show(s_["cond"])
+                    if "m_p" in txt or "m_end" in txt:
+                        continue
+                    return "unknown"
+                if not taken:
+                    continue
             r_ = minieval.run_straightline([s_], env_, enums)
             if r_[0] != "end":
                 return "not reached" if r_[0] in ("return", "throw") else "unknown"
@@ -586,6 +622,34 @@ def check_read_int(run, rule):
     run.floor(rule, 15, "argument-width and reserved-ai obligations")
 
 
+def inplace_head(stmts_):
+    """The head byte taken apart where it is read: `read_to_buffer(); T t = m_p[0] & 0xE0; A a = m_p[0] & 0x1F; m_p++;` (what is left
+    of a by-value `read_item_head()` after the normalisation).  Returns (type variable, additional-information variable, the
+    statements after the cursor moved) or None."""
+    def part(init):
+        u_ = unwrap_all_casts(init) if init is not None else None
+        if isinstance(u_, dict) and u_.get("k") == "Bin" and u_.get("op") == "&" and decoder.is_mp_deref(unwrap_all_casts(u_["lhs"])) is not None:
+            return const_value(u_["rhs"])
+        return None
+    tv = av = None
+    last = None
+    refilled = False
+    for i, s_ in enumerate(stmts_):
+        if any(callee_qn(c) == DEC + "::read_to_buffer" for c in ir.calls_in(s_)) and tv is None:
+            refilled = True
+            continue
+        if s_.get("k") == "Decl":
+            for v_ in s_.get("vars", []):
+                m_ = part(v_.get("init"))
+                if m_ == 0xE0 and "n" in v_:
+                    tv, last = "l:%s#%s" % (v_["n"], v_["id"]), i
+                elif m_ == 0x1F and "n" in v_:
+                    av, last = "l:%s#%s" % (v_["n"], v_["id"]), i
+        elif tv and av and last is not None and i == last + 1 and any(decoder.is_mp_move(x) for x in ir.walk(s_)):
+            return (tv, av, stmts_[i + 1:]) if refilled else None
+    return None
+
+
 def check_heads(run, rule):
     facts = run.facts
     n = 0
@@ -599,9 +663,14 @@ def check_heads(run, rule):
         calls = [callee_name(c) for c in ir.calls_in(f["body"]) if (c.get("callee") or {}).get("cls") == DEC]
         first = calls[0] if calls else None
         ok = first in ("read_cbor_type", "peek_type")
+        direct = [d for d in ir.walk(f["body"]) if decoder.is_mp_deref(d) is not None]
+        ih = inplace_head(ir.stmts(f["body"])) if not ok else None
+        if ih is not None:
+            # the same primitive written out (refill check, both halves of the byte, one step): its two reads are the head
+            ok, first = True, "the refill check and an in-place split of the byte"
+            direct = direct[2:] if len(direct) >= 2 else direct
         run.ob(rule, "%s:head-via-read_cbor_type" % nm, ok, f, f["line"],
                "head byte obtained through %s" % first if ok else "first decoder action is %s" % first, nontrivial=False)
-        direct = [d for d in ir.walk(f["body"]) if decoder.is_mp_deref(d) is not None]
         if direct and nm not in ("skip_item",):
             run.ob(rule, "%s:no-raw-window-access" % nm, False, f, direct[0].get("l", 0), "reads m_p directly instead of through read_cbor_type/read_int")
     run.floor(rule, 9, "public readers")
@@ -748,14 +817,18 @@ def check_values(run, rule, flag_contract=True):
                    "is not stored on this path: a caller reusing its variable keeps the previous value" if "not stored" in repr(bad[0][2]) else "wrong"))
     rk = dfn(facts, "read_break", rule)
     rc = [c for c in ir.calls_in(rk["body"]) if callee_qn(c) == "CDNS::CdnsDecoder::read_cbor_type"]
-    if len(rc) == 1:
-        tvar, avar = path_str(path(rc[0]["args"][0])), path_str(path(rc[0]["args"][1]))
+    ih = inplace_head(ir.stmts(rk["body"])) if len(rc) != 1 else None
+    if len(rc) == 1 or ih is not None:
+        if ih is not None:
+            tvar, avar, rk_stmts = ih
+        else:
+            tvar, avar, rk_stmts = path_str(path(rc[0]["args"][0])), path_str(path(rc[0]["args"][1])), ir.stmts(rk["body"])
         acc = []
         for tname, tv in cb.items():
             if tname == "BREAK":
                 continue
             for ai in range(32):
-                r = minieval.run_straightline(ir.stmts(rk["body"]), {tvar: tv, avar: ai}, facts.enums)
+                r = minieval.run_straightline(rk_stmts, {tvar: tv, avar: ai}, facts.enums)
                 if r[0] != "throw":
                     acc.append((tname, ai))
         ok = acc == [("SIMPLE", 31)]
